@@ -349,7 +349,7 @@ def probe_rclass(ctx, payload):
     pats = {}
     for m in MODEL_NAMES:
         model = Ms[m]()
-        rs = [model.rating(v[0], v[1], f"n{i}") for i, v in enumerate(vals)]
+        rs = [model.rating(v[0], v[1], ("", "x ", None, "n3", "n4", "n5")[i % 6]) for i, v in enumerate(vals)]
         pat = []
         for a in rs:
             for b in rs:
@@ -370,7 +370,7 @@ def probe_rclass(ctx, payload):
                     except Exception as e:  # noqa: BLE001
                         pat.append(type(e).__name__)
             c = copy.deepcopy(a)
-            pat += [c is not a, c.mu == a.mu and c.sigma == a.sigma, c.id == a.id, c.name == a.name, hash(c) == hash(a), c == a]
+            pat += [c is not a, c.mu == a.mu and c.sigma == a.sigma, c.id == a.id, c.name == a.name, repr(c.name), hash(c) == hash(a), c == a]
             s = copy.copy(a)
             pat += [s is not a, s.id == a.id, s == a]
             pat.append(a.ordinal())
